@@ -567,7 +567,7 @@ NOT_CLAIMED = {pid: WIP for pid in ["C%02d" % i for i in range(1, 21)] if pid no
 HOOK_COMMITS = ["6f869d9", "e935e32", "bce5a7c"]
 
 # input families added after the rule texts above were written (kept apart so the texts above stay readable)
-_STORE_MORE = ("; further families: one identity written at instants near both ends of the nanosecond range and in between, the same "
+_STORE_MORE = ("; further families: keys \"-1\" and \" \" in the alphabet and, next to both spellings of key zero in one batch, a third point of that type whose key sorts between them; one identity written at instants near both ends of the nanosecond range and in between, the same "
                "content reported again at a later instant, rewrites at the same instant that change only fields no checksum covers, "
                "cycle-closing edges created deleted as well as live, one script in twenty with a chain of 36 nodes written at its bottom, "
                "every second large batch writes 45 identities two or three times each in no particular order, one point in twenty carries a 310-byte text "
@@ -579,15 +579,15 @@ _RULE_MORE = {
            "during the outage, a bare node created upstream while the link is up, creations on either side in the up-only histories, one history in eight "
            "restarts the upstream instance on its address (the link drops at the NATS level and comes back by itself) and creates a node with a child there "
            "before the downstream has reconnected, one point in eight is dated 36 hours ahead of the wall clock",
-    "C04": "; further families: one 230-point batch, a rewrite at the same instant with the same checksum, an edge point on the former root's edge "
+    "C04": "; further families: one 230-point batch (600 points in every second script), a rewrite at the same instant with the same checksum, an edge point on the former root's edge "
            "after the root moved, and resumed runs (c04-resume: the store carries on after recovery and its final dump is compared as well)",
-    "C07": "; children are created with the client's own origin; one layout in six nests groups, one in twelve nests twenty groups with a managed node at the bottom; workers give up above 3 GiB of heap",
-    "C08": "; the client's configuration has a uint8 field declared before the others and one history in three ends with a foreign batch holding a value that field refuses (-3 or 300) next to a description and a value",
+    "C07": "; children are created with the client's own origin; one layout in six nests groups, one in twelve nests twenty groups with a managed node at the bottom; two scripted histories whose clients take 700 ms to return from Run, with the holder of the managed node deleted and restored again (wait-stop) while the stopped client winds down; the instrumented client keeps the slices it is handed and they are read when the log is looked at; workers give up above 3 GiB of heap",
+    "C08": "; the client's configuration has a uint8 field declared before the others and one history in three ends with a foreign batch holding a value that field refuses (-3 or 300) next to a description and a value; the slices handed to the callbacks are kept and read late (a later message must not change an earlier one)",
     "C09": "; a bearer token that expires between two uses, secondary credential points (alternative e-mail / password) written during the history",
     "C11": "; slices grown to the size limit by an earlier call, member keys beyond the declared ones",
     "C12": "; a decoy value encoded between encode and decode of the observed one, value round trips right after failed decodes",
     "C13": "; incoming points that carry the rule's own origin",
-    "C15": "; a moved top node (imported at its live placement), texts equal to node ids, indented multi-line texts, one node with 520 living children",
+    "C15": "; a moved top node (imported at its live placement), texts equal to node ids, indented multi-line texts, one node with 520 living children of which ten have children of their own, one tree in eight with a node of 9-13 children, one tree in five with two ids that differ only in the case of a letter",
     "C17": "; a decoy packet encoded while the observed one is still held",
     "C18": "; register maps built from overlapping AddReg ranges and declared ascending, descending, odd positions first or with the middle backwards, validators installed and lifted again (set to nil)",
     "C19": "; the same builders as C18 (declaration orders included), read responses of short length must be rejected, registers added while the server is serving (call 7, 30 sessions), every conversion called twice",
